@@ -705,19 +705,27 @@ func (e *Env) call(n *ast.CallExpr) Val {
 			if v.K != VScalar || t.mode != ModeBV {
 				e.fail("clz64/ctz64 need a bit-vector uint64")
 			}
-			// ite chain over the 64 bit positions, result as uint8
-			res := t.mode.intLit64(64, 8)
-			for k := 0; k < 64; k++ {
-				// clz: scan from bit 0 upwards so that the highest set bit wins last; ctz: from bit 63 downwards
-				bit := k
-				cnt := 63 - k
-				if id.Name == "ctz64" {
-					bit = 63 - k
-					cnt = 63 - k
+			// binary-search encoding (6 steps) of count-leading / count-trailing zeros
+			x := v.S
+			zero64 := t.mode.intLit64(0, 64)
+			n := t.mode.intLit64(0, 8)
+			steps := []int{32, 16, 8, 4, 2, 1}
+			for _, w := range steps {
+				var test, shifted string
+				wl := t.mode.intLit64(int64(w), 64)
+				if id.Name == "clz64" {
+					// top w bits zero?
+					test = eq(sx("bvlshr", x, t.mode.intLit64(int64(64-w), 64)), zero64)
+					shifted = sx("bvshl", x, wl)
+				} else {
+					test = eq(sx("bvshl", x, t.mode.intLit64(int64(64-w), 64)), zero64)
+					shifted = sx("bvlshr", x, wl)
 				}
-				isSet := eq(sx(fmt.Sprintf("(_ extract %d %d)", bit, bit), v.S), "#b1")
-				res = ite(isSet, t.mode.intLit64(int64(cnt), 8), res)
+				tn := t.define("czn", t.mode.intSort(8), ite(test, sx("bvadd", n, t.mode.intLit64(int64(w), 8)), n))
+				tx := t.define("czx", t.mode.intSort(64), ite(test, shifted, x))
+				n, x = tn, tx
 			}
+			res := ite(eq(v.S, zero64), t.mode.intLit64(64, 8), n)
 			return scalar(types.Typ[types.Uint8], res)
 		case "uf":
 			return e.uf(n)
